@@ -351,8 +351,17 @@ class C11(fw.Property):
     technique = ("Coq proofs over an executable model of protect/unprotect parametrised by an ideal AEAD (round trip, non-interference of the outer message, "
                  "binding of responses, tamper detection, error totality), constants/option-field codec/replay window regenerated from source; "
                  "differential correspondence of the real oscore.py (symbolic AEAD plugged in, and stub AES-CCM) against the model on scripted scenarios")
-    level_text = ""
-    level_note = ""
+    level_text = ("Theorems (closed under the global context) over an executable model of CanProtect.protect / CanUnprotect.unprotect, _compress/_uncompress, "
+                  "_construct_nonce, _extract_external_aad and the inner option codec, for every ideal AEAD: request round trip through matching contexts, "
+                  "non-interference and shape of the outer message, acceptance implies sender's key / algorithm / request kid+PIV / plaintext (tamper detection and "
+                  "response-to-request binding), nonce and AAD injectivity, only DecodeError/ProtectionInvalid/ReplayError/NotAProtectedMessage up to decryption. "
+                  "All constants, the extended option-field codec and the replay window come from the source on every run; the hand-written model is tied to the "
+                  "code by running both (with the same symbolic AEAD, and with stub AES-CCM) on scripted protect/tamper/unprotect scenarios.")
+    level_note = ("Partial: the round trip is proved for requests (C11_request_roundtrip_partial); for responses it is covered by the correspondence streams only. "
+                  "Cryptography is idealised (AEAD hypotheses, injective KDF) and stubbed (pure-Python AES-CCM/HKDF; the real cryptography wheel is not installed). "
+                  "Not modelled: Group OSCORE, Proxy-Uri splitting in _split_message, Echo recovery (C12), key derivation. "
+                  "_compress/_uncompress/_construct_nonce are hand-modelled (py2v.py does not support dicts, bytes*int, generator expressions); "
+                  "their constants and the nonce component order are extracted from the source (Gen/oscore_consts.v).")
     rule = ("scenario = contexts + script of protect / tamper / unprotect / forge operations over slots; streams sym_* run the real oscore.py over a symbolic AEAD "
             "and compare every byte with Model/C11.run; aes_* run the stub AES-CCM algorithms with HKDF-derived keys and compare everything but ciphertext bytes. "
             "Non-trivial = at least one unprotect accepted and one rejected, or a round trip through request and response; distinct by full input.")
@@ -382,6 +391,25 @@ class C11(fw.Property):
             aes = (k % 4 == 3)
             kind = kinds[(k // 4 if aes else k) % len(kinds)] if not aes else rng.choice(["roundtrip", "tamper", "tamper_resp", "cross", "foreign", "ni", "replay"])
             yield ("aes_" if aes else "sym_") + kind, getattr(self, "g_" + kind)(rng, aes)
+        if tier == "thorough":
+            # exhaustive small scope: EVERY single-bit flip of the OSCORE option and of the ciphertext of one request and one response
+            # (own Partial IV), symbolic and AES (validation of the tie and of the oracle, not a proof)
+            for aes in (False, True):
+                a, b = gen_pair(rng, aes); a["seq"] = 0x1234; b["seq"] = 0x01; b["window"] = [0x1230, 0]; a["window"] = [0, 0]
+                if a["idctx"] is None or len(a["idctx"]) > 8: a["idctx"] = b["idctx"] = "c0ffee"
+                req = {"code": 1, "opts": [[11, "7476"]], "payload": "0102"}; resp = {"code": 69, "opts": [[12, ""]], "payload": "6f6b"}
+                base = [{"op": "protect", "ctx": 0, "msg": req, "rid": None, "kc": "default", "out": 1, "rout": 1}, {"op": "unprotect", "ctx": 1, "src": 1, "rid": None, "rout": 2},
+                        {"op": "protect", "ctx": 1, "msg": resp, "rid": 2, "out": 3, "rout": 3}, {"op": "protect", "ctx": 1, "msg": resp, "rid": 2, "out": 4, "rout": 4}]
+                optlen_req = 1 + 2 + 1 + len(a["idctx"]) // 2 + len(a["sid"]) // 2
+                ctlen = 2 * 64 + 2 * 120 if not aes else 40
+                for src, rid_, ctx, nbytes in ((1, None, 1, optlen_req), (4, 1, 0, 2)):
+                    for kind, n in (("optbit", nbytes), ("paybit", ctlen)):
+                        for i in range(n):
+                            for bit in range(8):
+                                ops = [o for o in base if not (src == 1 and o["op"] == "unprotect")] if src == 1 else list(base)
+                                yield ("aes_" if aes else "sym_") + "bitflip", {"ctxs": [dict(a), dict(b)], "ops": ops + [
+                                    {"op": "tamper", "src": src, "t": [kind, i, bit], "out": 9}, {"op": "unprotect", "ctx": ctx, "src": 9, "rid": rid_, "rout": 9},
+                                    {"op": "unprotect", "ctx": ctx, "src": src, "rid": rid_, "rout": 10}]}
 
     def _req_resp(self, rng, A, B, ops, base=0, req=None, resp=None, unprotect_resp=True):
         """client ctx A protects a request (slot base+1, rid base+1), server ctx B unprotects (rid base+2), protects a response (slot base+3), client unprotects"""
@@ -776,7 +804,10 @@ class C11(fw.Property):
                     if expect_accept: return ("C11:roundtrip-rejected:" + name, "an untouched message from the matching context was rejected with %s (op %d)" % (name, oi))
                     continue
                 # ---- a message came out
-                if f is not None and f["piv"] is not None and not is_resp_call: strike(op["ctx"], int.from_bytes(f["piv"], "big")) if fresh(op["ctx"], int.from_bytes(f["piv"], "big")) else None
+                if f is not None and f["piv"] is not None and not is_resp_call:
+                    n_ = int.from_bytes(f["piv"], "big")
+                    if fresh(op["ctx"], n_): strike(op["ctx"], n_)
+                    elif not precond: return ("C11:replayed-request-accepted", "a request with Partial IV %d was accepted although that number was already used or lies below the replay window (op %d)" % (n_, oi))
                 rids[op["rout"]] = rid_in if is_resp_call else {"kid": r["rid"][0], "piv": r["rid"][1], "reusable": r["rid"][2], "style": r["rid"][3]}
                 if prov["forged"]: continue
                 S = ctxs[prov["sender"]]; orig = prov["orig"]
@@ -806,6 +837,11 @@ class C11(fw.Property):
                 if r["observe"] != want_obs: return ("C11:roundtrip-mismatch:observe", "unprotected Observe %r, expected %r (op %d)" % (r["observe"], want_obs, oi))
                 if not is_resp_call and r["rid"] != [R["rid"], f["piv"].hex(), True, [cur["code"], 68 if cur["code"] == 2 else 69]]:
                     return ("C11:request-id", "unprotect returned identifiers %r for kid %s piv %s" % (r["rid"], R["rid"], f["piv"].hex()))
+        # ---- corpus cases carrying published test vectors (RFC 8613 appendix C): the outer message must be the published one
+        for i, want in (inp.get("expect") or {}).items():
+            got = res[int(i)]
+            if not isinstance(got, dict) or got.get("opts") != want["opts"] or got.get("payload") != want["payload"]:
+                return ("C11:rfc8613-vector-mismatch", "op %s produced %r, the test vector says %r" % (i, got if not isinstance(got, dict) else {k: got[k] for k in ("opts", "payload")}, want))
         # ---- non-interference: the two protect results of an `ni` scenario differ in nothing but the encrypted plaintext
         if "ni" in inp:
             i, j = inp["ni"]; a, b = res[i], res[j]
